@@ -98,6 +98,18 @@ CLAIMED = {
             'chooses the interleaving, so both orders around the expiry are likely but not forced.',
             'Timing margins of 150 ms protect the oracle against scheduling delays; a crash of a shard is reported as a '
             'harness error (exit 2), not as a violation.'),
+    'C18': ('property-based testing: generated DSG specs x every applicable single structural edit on a copy (equality / hash '
+            'sensitivity), export completeness counts, and pickle transport from child processes with other hash seeds '
+            'and node-id orders compared by is_same, design variables and the full decode table',
+            'Generated-input search with metamorphic (edit => unequal) and differential (other process) oracles.',
+            'Raw hash()/fingerprint() integers are not compared across processes (string hashing is salted); only '
+            'is_same after transport and behavioural equality are.'),
+    'C20': ('property-based testing: generated source graphs x all their feasible final instances x generated supplementary '
+            'graphs with option/existence mappings (nested choices, None entries) and negative variants; oracle = '
+            'independent mapping model on the reference architecture',
+            'Generated-input search; the expected option and the expected resolved node set come from a mapping model '
+            'that shares no code with adsg_core.',
+            'Chained SupDSG -> SupDSG resolution is not generated.'),
 }
 
 NOT_YET = 'check not built yet in this session (see DESIGN.md 6 for the plan); will be claimed once it is registered'
